@@ -90,6 +90,11 @@ def main():
                 with open(meta) as f:
                     exp = [json.load(f)["breaks_property"]]
         related = [c for c in ("C01",) if c not in exp] if name.startswith("seeded_") else []
+        if name.startswith("seeded_"):
+            meta = os.path.join(os.path.dirname(path), "meta.json")
+            if os.path.exists(meta):
+                with open(meta) as f:
+                    related += [c for c in json.load(f).get("also_run", []) if c not in exp and c not in related]
         checks = ALL if allchecks or not exp else exp + related
         r = run_mutant(name, path, checks, tier)
         r["expected"] = exp
